@@ -62,6 +62,10 @@ def obligations(tier):
     for q in range(4):
         obls.append(CH("fs_optimiser_three_allow_filters_p%d" % q, H, "optimiser3_allow", t * 2, mode="E1s", functions=FO + FM[:1] + ["stix2.datastore.filesystem.FileSystemSource.query"],
                    stubs=[FSS], env={"VERIF_PART": str(q)}, bounds="property " + ("type" if q < 2 else "id") + ", " + ("three routes" if q % 2 else "query argument") + "; every triple of allow filters (=, in, in []) on the same property (type or id) x values; all as query argument, or attached / argument / handed down"))
+    for q in range(4):
+        obls.append(CH("sources_queried_between_additions_p%d" % q, "props.h_C11", "hist3", t * 2, mode="E1s", functions=FO[3:] + FM[:1], stubs=[FSS], env={"VERIF_PART": str(q)},
+                       bounds="first add of id %d; 3 additions from 4 ids x 3 versions; the same long-lived filesystem and memory stores answer 5 queries, get and all_versions before the first and "
+                              "after every addition (shared with C11); starting layouts: nothing, empty type directories, an object in the old flat layout" % q))
     if tier == "quick":
         obls.append(CH("fs_optimiser_k2", H, "optimiser2", t, mode="E1s", functions=FO + FM[:1], stubs=[FSS],
                        bounds="every pair of type/id filters (=, !=, in, in []) over 3 types x 4 ids; soundness and exactness vs naive and MemorySource, also through a view of the store made of symbolic links"))
